@@ -811,6 +811,16 @@ def check_c10(res, ctx):
                 if item and not item.startswith("#") and not re.match(r"^g0:.*d(0|-\d+).*e1$", item):
                     return "a name listed by metadata the reader returned is not found by name (probe '%s')" % item[:80]
         return None
+    # copying what the reader returned (table-level names may repeat there, entries may lack a value):
+    # all entries or none
+    cpl = []
+    for _ in range(200 if ctx.tier == "quick" else 3000):
+        p = gen.rphys_invalid(r) if r.random() < 0.7 else gen.rphys(r)
+        cpl.append("radd %s 1" % bytes(p.encode().b).hex())
+    compare(res, ctx, cpl, "c10 copies of metadata returned by the reader",
+            oracle=lambda l, h: ("leak or double release: " + h[-20:]) if not h.endswith("live=0") else None,
+            rule="foreign streams (repeated table-level and column names, names differing after an embedded NUL, unused names) read; sbdf_tm_create / sbdf_tm_add from the returned collections, written",
+            nontrivial=lambda l: True, model_is_spec=True)
     compare(res, ctx, fl, "c10 lookups on metadata returned by the reader", oracle=oracle_fr,
             rule="files with table-level and column metadata read back; every listed name probed with sbdf_md_get / sbdf_md_get_dflt / sbdf_md_exists",
             nontrivial=lambda l: len(l) > 60, model_is_spec=True)
@@ -1367,6 +1377,32 @@ def check_c07(res, ctx):
     compare(res, ctx, sl, "c07 column-subset reads", oracle=oracle_sub,
             rule="all 2^n column subsets (n small) / random subsets of reference-encoded and library-style files",
             nontrivial=lambda l: "1" in l.split()[-1] and "0" in l.split()[-1])
+    # the same on a stream that cannot seek (a pipe, a socket, stdin): fseek fails there, and a
+    # well-formed stream still has to be skipped like it is read (defect F25)
+    pl = []
+    for l in r.sample(sl, min(len(sl), 400 if ctx.tier == "quick" else 5000)) + r.sample(fl, min(len(fl), 200 if ctx.tier == "quick" else 3000)):
+        pl.append("pipe=%d %s" % (r.choice([1, 2]), l))
+    for _ in range(150 if ctx.tier == "quick" else 2000):
+        tid = r.choice(ref.ALL_TIDS)
+        if ref.is_arr(tid):
+            e = gen.rstr(r, big=r.random() < 0.1)
+            body = struct.pack("<i", len(e)) + e
+        else:
+            body = gen.rbytes(r, ref.SIZES[tid])
+        pl.append("pipe=%d oskip %d %s" % (r.choice([1, 2]), tid, core.hexs(body + gen.rbytes(r, r.choice([0, 3, 5000])))))
+
+    def oracle_pipe(l, h):
+        base = l.split(" ", 1)[1]
+        if base.startswith("fr "):
+            return oracle_sub(base, h)
+        if base.startswith("fsk "):
+            return oracle_fsk(base, h)
+        if not re.match(r"rd=0@(\d+):.* sk=0@\1 live=0$", h):
+            return "on a stream that cannot seek, sbdf_obj_skip does not end where sbdf_obj_read ends: " + h[:200]
+        return None
+    compare(res, ctx, pl, "c07 streams that cannot seek", oracle=oracle_pipe,
+            rule="subset reads, sbdf_ts_skip loops and sbdf_obj_skip of well-formed streams served through a FILE* whose fseek fails with ESPIPE (buffered and unbuffered, reads of at most 4096 bytes)",
+            nontrivial=lambda l: True)
 
 
 # ----------------------------------------------------------------------------- C09 corruption -> status
